@@ -399,8 +399,37 @@ def sample(ctx, budget=1.0, hint=None, broken=None):
                 t0, t1 = 0.0, 1.0
             rep = 'svgpathtools.%r' % (seg,)
             tag = '%s scipy=%s' % (kind, mode)
+            pre = None
+            if r.random() < 0.3:
+                # the same object after another query that measures it on the way (with its own accuracy needs): whatever that query
+                # left behind must not leak into the answer at the accuracy asked for now
+                pre = r.choice(['length(error=1e-1)', 'length(error=1e-3, min_depth=1)', 'area', 'reversed-length', 'bbox'])
+                try:
+                    with warnings.catch_warnings():
+                        warnings.simplefilter('ignore')
+                        if pre == 'length(error=1e-1)':
+                            seg.length(error=1e-1); pre_src = 's.length(error=1e-1)'
+                        elif pre.startswith('length'):
+                            seg.length(error=1e-3, min_depth=1); pre_src = 's.length(error=1e-3, min_depth=1)'
+                        elif pre == 'area':
+                            # (the default chord_length of 1e-4 makes area() build millions of chords for an arc of size 100)
+                            cl_ = 0.02 * max(abs(seg.point(0.5) - seg.start), abs(seg.end - seg.start))
+                            P.Path(seg, P.Line(seg.end, seg.start)).area(chord_length=cl_)
+                            pre_src = 'svgpathtools.Path(s, svgpathtools.Line(s.end, s.start)).area(chord_length=%r)' % cl_
+                        elif pre == 'bbox':
+                            seg.bbox(); pre_src = 's.bbox()'
+                        else:
+                            seg.reversed().length(error=1e-2); pre_src = 's.reversed().length(error=1e-2)'
+                except Exception:
+                    pre = None
+                if pre is not None:
+                    if r.random() < 0.75:
+                        t0, t1 = 0.0, 1.0
+                    tag += ' after ' + pre.split('(')[0]
+            def mkrep(call, pre=pre, rep=rep, pre_src=(pre_src if pre is not None else None)):
+                return call(rep) if pre is None else '(lambda s: (%s, %s)[-1])(%s)' % (pre_src, call('s'), rep)
             n_eval += 1
-            nontriv.add((kind, shape, mode, t0 == 0, t1 == 1))
+            nontriv.add((kind, shape, mode, t0 == 0, t1 == 1, pre))
             try:
                 with warnings.catch_warnings():
                     warnings.simplefilter('ignore')
@@ -409,12 +438,12 @@ def sample(ctx, budget=1.0, hint=None, broken=None):
                 continue
             except Exception as e:
                 fail('length raises (%s)' % tag, 'length(t0, t1) raised', {'seg': repr(seg), 't0': t0, 't1': t1, 'scipy': mode}, repr(e), 'a length',
-                     '%s.length(%r, %r)' % (rep, t0, t1))
+                     mkrep(lambda o: '%s.length(%r, %r)' % (o, t0, t1)))
                 continue
             size = max(abs(seg.point(0.5) - seg.point(0)), abs(seg.point(1) - seg.point(0)), abs(seg.point(0.25) - seg.point(0.75)), 1e-300) if kind != 'line' else abs(seg.end - seg.start) + 1e-300
             if not (isinstance(L, (float, int, np.floating)) and math.isfinite(L) and L >= -1e-12 * size):
                 fail('length not finite/non-negative (%s)' % tag, 'length(t0, t1) is NaN, infinite, complex or negative', {'seg': repr(seg), 't0': t0, 't1': t1, 'shape': shape, 'scipy': mode},
-                     repr(L), '>= 0, finite', '%s.length(%r, %r)' % (rep, t0, t1))
+                     repr(L), '>= 0, finite', mkrep(lambda o: '%s.length(%r, %r)' % (o, t0, t1)))
                 continue
             speed = lambda tau: abs(seg.derivative(tau))
             # does the speed vanish (nearly) inside the interval?
@@ -440,17 +469,17 @@ def sample(ctx, budget=1.0, hint=None, broken=None):
                     slack += 1e-9 * size    # the fallback's own error parameter is absolute (1e-12 per leaf)
                 if not (lo - slack <= L <= hi + slack):
                     fail('length outside chord/control-polygon bracket (%s)' % tag, 'length(t0,t1) is outside the rigorous bracket of a 2^10 subdivision',
-                         {'seg': repr(seg), 't0': t0, 't1': t1, 'shape': shape, 'scipy': mode}, repr(L), '[%r, %r]' % (lo, hi), '%s.length(%r, %r)' % (rep, t0, t1))
+                         {'seg': repr(seg), 't0': t0, 't1': t1, 'shape': shape, 'scipy': mode}, repr(L), '[%r, %r]' % (lo, hi), mkrep(lambda o: '%s.length(%r, %r)' % (o, t0, t1)))
             else:
                 g = gauss(speed, t0, t1)
                 if abs(L - g) > rel * max(g, 1e-300) + 1e-9 * size:
                     fail('length differs from quadrature (%s)' % tag, 'length(t0,t1) differs from composite Gauss-Legendre quadrature of |derivative|',
-                         {'seg': repr(seg), 't0': t0, 't1': t1, 'scipy': mode}, repr(L), repr(g), '%s.length(%r, %r)' % (rep, t0, t1))
+                         {'seg': repr(seg), 't0': t0, 't1': t1, 'scipy': mode}, repr(L), repr(g), mkrep(lambda o: '%s.length(%r, %r)' % (o, t0, t1)))
                 # chord lower bound
                 cl = math.fsum(abs(seg.point(b) - seg.point(a)) for a, b in zip(taus, taus[1:]))
                 if L < cl - rel * cl - 1e-9 * size:
                     fail('length below inscribed polygon (%s)' % tag, 'length(t0,t1) is shorter than an inscribed polygon', {'seg': repr(seg), 't0': t0, 't1': t1, 'scipy': mode},
-                         repr(L), '>= %r' % cl, '%s.length(%r, %r)' % (rep, t0, t1))
+                         repr(L), '>= %r' % cl, mkrep(lambda o: '%s.length(%r, %r)' % (o, t0, t1)))
             # additivity
             tm = r.uniform(t0, t1)
             with warnings.catch_warnings():
@@ -461,9 +490,35 @@ def sample(ctx, budget=1.0, hint=None, broken=None):
                     continue
             if abs(L1 + L2 - L) > rel * max(L, 1e-300) + 1e-9 * size:
                 fail('length not additive (%s)' % tag, 'length(t0,tm) + length(tm,t1) != length(t0,t1)', {'seg': repr(seg), 't0': t0, 'tm': tm, 't1': t1, 'shape': shape, 'scipy': mode},
-                     repr(L1 + L2), repr(L), '(%s.length(%r, %r), %s.length(%r, %r), %s.length(%r, %r))' % (rep, t0, tm, rep, tm, t1, rep, t0, t1))
+                     repr(L1 + L2), repr(L), mkrep(lambda o: '(%s.length(%r, %r), %s.length(%r, %r), %s.length(%r, %r))' % (o, t0, tm, o, tm, t1, o, t0, t1)))
             if len(samples) < 3:
                 samples.append({'seg': repr(seg), 't0': t0, 't1': t1, 'length': float(L), 'scipy': mode})
+        # --- the same segment object asked again at the default accuracy after it was measured coarsely -------------------
+        for it in range(int(ctx.n(24, 200) * budget)):
+            mode = modes[-1] if it % 4 else modes[0]          # mostly the pure-Python fallback, where `error` really matters
+            P._quad_available = mode
+            a, b = complex(r.uniform(-1, 1), r.uniform(-1, 1)), complex(r.uniform(-1, 1), r.uniform(-1, 1))
+            if it % 3 == 0:
+                seg = P.CubicBezier(a, a + complex(r.uniform(-2, 2), r.uniform(-2, 2)), b + complex(r.uniform(-2, 2), r.uniform(-2, 2)), b)
+            else:
+                seg = P.Arc(a, complex(r.uniform(1.5, 4), r.uniform(0.6, 4)), r.choice([0, 20, -75.5]), r.random() < 0.5, r.random() < 0.5, b)
+            kindc = type(seg).__name__
+            pre = r.choice(['s.length(error=1e-1)', 's.length(error=1e-2, min_depth=0)', 'svgpathtools.Path(s, svgpathtools.Line(s.end, s.start)).area(chord_length=0.05)',
+                            's.reversed().length(error=1e-1)', 'svgpathtools.Path(s).length(error=1e-1)'])
+            src = '(lambda s: (%s, s.length())[-1])(svgpathtools.%r)' % (pre, seg)
+            n_eval += 1
+            nontriv.add(('coarse-first', kindc, mode, pre.split('(')[0]))
+            with warnings.catch_warnings():
+                warnings.simplefilter('ignore')
+                try:
+                    L = eval(src, {'svgpathtools': spt})
+                except Exception as e:
+                    fail('length raises (%s scipy=%s)' % (kindc, mode), 'length() raised after a coarse measurement', {'seg': repr(seg), 'first': pre, 'scipy': mode}, repr(e)[:200], 'a length', src)
+                    continue
+            g = gauss(lambda tau: abs(seg.derivative(tau)), 0.0, 1.0)
+            if not (abs(L - g) <= 1e-6 * g):
+                fail('length after a coarser measurement (%s scipy=%s)' % (kindc, mode), 'length() at the default accuracy returns what an earlier, coarser measurement of the same object left behind',
+                     {'seg': repr(seg), 'first': pre, 'scipy': mode}, repr(L), repr(g), src)
         # --- paths: sum of segments, with and without scipy -------------------------------------------------
         for it in range(int(ctx.n(30, 300) * budget)):
             mode = modes[it % len(modes)]
@@ -520,10 +575,19 @@ def sample(ctx, budget=1.0, hint=None, broken=None):
             'rule': 'random Line/Quadratic/Cubic/Arc at scales 1e-3..1e4 (1e-2..30 without scipy): generic, collinear, collinear with fold-back, repeated control points, axis-aligned, '
                     'eccentric and rotated arcs; sub-intervals incl. [0,1]; both values of svgpathtools.path._quad_available; checks: finite and >= 0, inside the rigorous '
                     '[chords, control polygons] bracket of a 2^10 de Casteljau subdivision (Beziers) or against 64x24-point Gauss-Legendre and an inscribed polygon (arcs), '
-                    'additivity at a random split, Path.length() = sum, Path.length(T0,T1) decomposition; plus recorder probes of what quad / segment_length are handed. '
+                    '30% of the segments are measured after another query on the same object (length at a coarser accuracy, Path.area() of the closed-up segment, bbox, reversed().length()); additivity at a random split, Path.length() = sum, Path.length(T0,T1) decomposition; plus recorder probes of what quad / segment_length are handed. '
                     'distinct = distinct (kind, shape, scipy?, t0==0, t1==1)'}
 
 
 def replay(spt, f):
     from .c19 import replay as rp
-    return rp(spt, f)
+    P = spt.path
+    saved = P._quad_available
+    inp = f.get('input') if isinstance(f.get('input'), dict) else {}
+    try:
+        if 'scipy' in inp or 'scipy_quad' in inp:
+            P._quad_available = bool(inp.get('scipy', inp.get('scipy_quad'))) and saved
+            print('svgpathtools.path._quad_available =', P._quad_available)
+        return rp(spt, f)
+    finally:
+        P._quad_available = saved
